@@ -204,6 +204,8 @@ class NetstringReceiver(protocol.Protocol):
         @return: The size of the string representation for C{self.MAX_LENGTH}
         @rtype: C{float}
         """
+        if self.MAX_LENGTH < 1:
+            return 1
         return math.ceil(math.log10(self.MAX_LENGTH)) + 1
 
     def _consumeData(self):
